@@ -347,10 +347,12 @@ def _f27_shape(ev):
     return len(ev) == 2 and 'client' in ev and ev[0] != ev[1]
 
 
-def l2_client_poll(ck, th, seed):
+def l2_client_poll(ck, th, seed, lifecycle=True):
     """TLC on EioClientFinePoll (application thread, write loop, read loop and a server answering
     every request as it likes), then pre-emptive executions of the real threaded Client on
-    polling validated primitive by primitive, then TLC-generated schedules replayed on it."""
+    polling validated primitive by primitive, then TLC-generated schedules replayed on it.
+    lifecycle=False (C09): the number of disconnect events is not judged (that is C08's business,
+    finding F27); order, exactly-once and PONG conduct are."""
     from .. import tlc
     from ..harness import l2
     opn, _ = load_known_findings(ck.pid)
@@ -376,6 +378,8 @@ def l2_client_poll(ck, th, seed):
             dict(name='L2 polling client: one disconnect event per connection - expected to fail '
                       '(finding F27: disconnect() changes the state only after its two puts)',
                  spec='Spec', consts=small, invariants=['OneDisconnect'], f27=True)]
+    if not lifecycle:
+        jobs = jobs[:1]
     for j in jobs:
         cfg = tlc.cfg_text(spec=j['spec'], constants=j['consts'], invariants=j.get('invariants', ()),
                            properties=j.get('properties', ()))
@@ -431,7 +435,7 @@ def l2_client_poll(ck, th, seed):
                          {'script': items[i][1]['script'], 'schedule_seed': items[i][1]['schedule_seed'],
                           'tlc': txt, 'kind': 'l2-poll-trace'})
         for t, f in items:
-            if len(t['final']['ev']) > 1:
+            if len(t['final']['ev']) > 1 and lifecycle:
                 nf27 += 1
                 if f27 and _f27_shape(t['final']['ev']):
                     ck.known_finding('F27', f27[0]['what'])
@@ -485,7 +489,7 @@ def l2_client_poll(ck, th, seed):
             ck.violation('under a TLC schedule the real polling Client ends with %r, '
                          'EioClientFinePoll with %r (unfinished tasks: %r)' % (real, model, left),
                          {'schedule': sched, 'real': t, 'kind': 'l2-poll-schedule'})
-        if same and len(model['ev']) > 1:
+        if same and len(model['ev']) > 1 and lifecycle:
             ntwo += 1
             if f27 and _f27_shape(model['ev']):
                 ck.known_finding('F27', f27[0]['what'])
